@@ -17,9 +17,8 @@ from . import k10
 # signature = frozenset of cshort(member); value = (class, spec)
 TABLE = {
     frozenset(["TypePath::to_syn_type", "TypePathType::to_syn_type"]): ("s", {"measure": {"TypePath::to_syn_type": 0, "TypePathType::to_syn_type": 0}}),
-    frozenset(["scale_typegen::to_tokens", "ToTokensWithSettings::to_token_stream", "CompositeIR::enum_field_tokens", "CompositeIR::struct_field_tokens"]):
-        ("s", {"measure": {"scale_typegen::to_tokens": 0, "ToTokensWithSettings::to_token_stream": 0, "CompositeIR::enum_field_tokens": 0,
-                           "CompositeIR::struct_field_tokens": 0}, "trampoline": ["ToTokensWithSettings::to_token_stream"]}),
+    frozenset(["scale_typegen::to_tokens", "ToTokensWithSettings::to_token_stream"]):
+        ("s", {"measure": {"scale_typegen::to_tokens": 0, "ToTokensWithSettings::to_token_stream": 0}, "trampoline": ["ToTokensWithSettings::to_token_stream"]}),
     frozenset(["substitutes::replace_path_params_recursively"]): ("s", {"measure": {"substitutes::replace_path_params_recursively": 0}}),
     frozenset(["TypePath::parent_type_params_recurse"]): ("s", {"measure": {"TypePath::parent_type_params_recurse": 0}}),
     frozenset(["GenericsList::index_for_type_id"]): ("s", {"measure": {"GenericsList::index_for_type_id": 0}}),
